@@ -694,7 +694,12 @@ class Continuum:
             # We retain only the leftmost unitary alignment in the best alignment of the window,
             # as it is the most likely to be in the global best alignment
             best_alignment = window.get_best_alignment(dissimilarity)
-            for chosen in best_alignment.take_until_limit(x_limit):
+            chosen_alignments = list(best_alignment.take_until_limit(x_limit))
+            if not chosen_alignments:
+                # Every unitary alignment of the window reaches past x_limit : the leftmost one is
+                # retained anyway, otherwise the working copy never shrinks and the loop never ends.
+                chosen_alignments = list(best_alignment.take_until_limit(np.inf))[:1]
+            for chosen in chosen_alignments:
                 unitary_alignments.append(chosen)
                 disorders.append(chosen.disorder)
                 for annotator, unit in chosen.n_tuple:
